@@ -285,22 +285,49 @@ def sorted_prefix(ctx, repo: Repo, pid: str):
     ctx.analysed(gs)
     ctx.analysed(gn)
     ctx.instance("ORD", 3)
-    sorts = [n for n in ast.walk(gs.node) if isinstance(n, ast.Call) and isinstance(n.func, ast.Name) and n.func.id == "sorted"]
-    ok = False
+    # the sort may sit in a private helper that only _get_attributes_array_sorted_by_index calls
+    from .astutil import helper_closure
+    scope_fns = [gs] + [ci.find_method(h_) for h_ in sorted(helper_closure(ci, ["_get_attributes_array_sorted_by_index"]) - {"_get_attributes_array_sorted_by_index"})
+                        if ci.find_method(h_) is not None]
+    for f_ in scope_fns[1:]:
+        ctx.analysed(f_)
+    sorts = [(f_, n) for f_ in scope_fns for n in ast.walk(f_.node) if isinstance(n, ast.Call) and isinstance(n.func, ast.Name) and n.func.id == "sorted"]
+    ok = None
     why = "no sorted(...) call"
-    for s in sorts:
+    for f_, s in sorts:
         kw = {k.arg: k.value for k in s.keywords}
         key = kw.get("key")
         rev = kw.get("reverse")
-        by_ci = isinstance(key, ast.Lambda) and "central_index" in src(key.body)
-        ok = by_ci and (rev is None or (isinstance(rev, ast.Constant) and rev.value is False)) and "self.G.nodes" in src(s.args[0])
+        # the key as an expression: a lambda body, or the single return of a named function defined next to the call
+        kbody = None
+        if isinstance(key, ast.Lambda):
+            kbody = key.body
+        elif isinstance(key, ast.Name):
+            defs_ = [d_ for d_ in ast.walk(f_.node) if isinstance(d_, ast.FunctionDef) and d_.name == key.id and d_ is not f_.node]
+            if not defs_ and f_.module.functions.get(key.id) is not None:
+                defs_ = [f_.module.functions[key.id].node]
+            if len(defs_) == 1:
+                rets_ = [r_ for r_ in ast.walk(defs_[0]) if isinstance(r_, ast.Return) and r_.value is not None]
+                if len(rets_) == 1:
+                    kbody = rets_[0].value
+        rev_ok = rev is None or (isinstance(rev, ast.Constant) and rev.value is False)
+        on_nodes = "self.G.nodes" in src(s.args[0]) if s.args else False
         why = f"key={src(key) if key is not None else None}, reverse={src(rev) if rev is not None else None}"
+        if not on_nodes:
+            continue
+        if key is None or (kbody is not None and "central_index" not in src(kbody)) or (rev is not None and isinstance(rev, ast.Constant) and rev.value is True):
+            ok = False
+        elif kbody is not None and rev_ok:
+            ok = True
+        else:
+            ok = None
+        last = (f_, s)
     if ok:
-        ctx.ok("ORD", f"{pid}.sorted.key", "node arrays are sorted ascending by the permanent index", gs.where, src(sorts[-1])[:160])
-    elif sorts:
-        ctx.violate("ORD", f"{pid}.sorted.key", "node arrays are not sorted ascending by the permanent index", gs.where, src(sorts[-1])[:200], witness=why)
+        ctx.ok("ORD", f"{pid}.sorted.key", "node arrays are sorted ascending by the permanent index", last[0].where, src(last[1])[:160])
+    elif ok is False:
+        ctx.violate("ORD", f"{pid}.sorted.key", "node arrays are not sorted ascending by the permanent index", last[0].where, src(last[1])[:200], witness=why)
     else:
-        ctx.inconclusive("ORD", f"{pid}.sorted.key", "sorting of the node array not recognised", gs.where)
+        ctx.inconclusive("ORD", f"{pid}.sorted.key", "sorting of the node array not recognised", gs.where, witness=why)
     # get_nodes: [:N] of that array
     sl = [n for n in ast.walk(gn.node) if isinstance(n, ast.Subscript) and isinstance(n.slice, ast.Slice) and isinstance(n.value, ast.Call)
           and "_get_attributes_array_sorted_by_index" in src(n.value.func)]
